@@ -284,7 +284,30 @@ func pathLess(a, b []int) bool {
 }
 
 // Run executes root under strat and returns when the execution is over and all threads are unwound.
+// Package-level variables of the repository are part of the state of an execution: every Run starts from the
+// values they had when the worker started (SnapshotGlobals, shallow copies). Without this a change that hoists a
+// local variable to package scope would carry state from one execution into the next and the replay of a schedule
+// would not reproduce it. The instrumenter generates one saver per package (RegisterGlobals).
+var (
+	globalSavers  []func() func()
+	globalRestore []func()
+)
+
+// RegisterGlobals is called from generated init functions: save returns a function that restores what it saved.
+func RegisterGlobals(save func() func()) { globalSavers = append(globalSavers, save) }
+
+// SnapshotGlobals records the current values of all registered package-level variables.
+func SnapshotGlobals() {
+	globalRestore = nil
+	for _, s := range globalSavers {
+		globalRestore = append(globalRestore, s())
+	}
+}
+
 func Run(strat Strategy, maxSteps int, trace bool, root func()) *Exec {
+	for _, r := range globalRestore {
+		r()
+	}
 	epochCounter++
 	e := &Exec{Epoch: epochCounter, strat: strat, MaxSteps: maxSteps, finished: make(chan struct{}), Trace: trace, region: true, Values: map[string]any{}}
 	e.clk.init()
